@@ -641,7 +641,8 @@ theorem headerStep_eq (st0 : HState) (line : Bytes) (strip : Int) :
        let st := { st0 with lines := st0.lines + 1, thisLooks := Format.unknown }
        let p := st.patch
        if (p.format = .unknown ∨ p.format = .unified) ∧ last = .unified ∧
-           (startsWith line "+" ∨ startsWith line "-" ∨ startsWith line " ") then
+           (startsWith line "+" ∨ startsWith line "-" ∨ startsWith line " " ∨
+            (line = [] ∧ (0 : Int) < st.hunk.old.count ∧ (0 : Int) < st.hunk.new.count)) then
          .ok ({ st with patch := { p with oldPath := p.newPath, newPath := p.oldPath,
                                           oldTime := p.newTime, newTime := p.oldTime, format := .unified },
                         foundFirstHunk := true }, false)
